@@ -10,6 +10,8 @@ fn sys(i: u8) -> SystemCommand { SystemCommand(ent(i as u32)) }
 
 /// Inductive step, same shape as the other trackers (see system_event_reader harness).
 #[kani::proof]
+#[kani::stub(core::any::TypeId::of, crate::vh::stub_typeid_of)]
+#[kani::stub(<core::any::TypeId as crate::vh::PEq>::eq, crate::vh::stub_typeid_eq)]
 #[kani::unwind(8)]
 fn desp_tracker_step()
 {
@@ -63,6 +65,8 @@ fn desp_tracker_step()
 /// stay alive while the reaction is pending and while it runs, and be released (=> reactor entity sent to the
 /// despawner exactly once) by end().
 #[kani::proof]
+#[kani::stub(core::any::TypeId::of, crate::vh::stub_typeid_of)]
+#[kani::stub(<core::any::TypeId as crate::vh::PEq>::eq, crate::vh::stub_typeid_eq)]
 #[kani::unwind(8)]
 fn desp_tracker_handle_lifetime()
 {
@@ -94,6 +98,8 @@ fn desp_tracker_handle_lifetime()
 }
 
 #[kani::proof]
+#[kani::stub(core::any::TypeId::of, crate::vh::stub_typeid_of)]
+#[kani::stub(<core::any::TypeId as crate::vh::PEq>::eq, crate::vh::stub_typeid_eq)]
 #[kani::unwind(8)]
 fn desp_tracker_witness()
 {
